@@ -32,6 +32,9 @@ static var tup_elem(int tok) {
   tup_elems[tup_n++] = o;
   return o;
 }
+#define MAXKEEP 4096
+static var keep_tmp[MAXKEEP]; static int n_keep;
+static var accept_all(var x) { return x; }
 static void tup_free_all(void) { for (size_t i = 0; i < tup_n; i++) vt_free(tup_elems[i]); tup_n = 0; }
 
 /* dispose of an element argument after the call */
@@ -150,6 +153,8 @@ int main(int argc, char** argv) {
     if (hc_is(0, "reset")) {
       for (int i = 1; i < MAXO; i++) drop(&objs[i]);
       tup_free_all();
+      for (int i = 0; i < n_keep; i++) del_raw(keep_tmp[i]);
+      n_keep = 0;
       if (cur_exec > 0) { ev_begin("end"); ev_ledger(); ev_int("line", cur_line); ev_end(); led_abandon(); }   /* closes the previous execution */
       cur_exec++;
       ev_begin("reset"); ev_ledger(); ev_int("line", cur_line); ev_end();
@@ -257,6 +262,25 @@ int main(int argc, char** argv) {
       del_raw(tmp);
       n_init = (size_t)nv;
       emit(objs, "concatv", o, 0, 0, 0, 0, "", hc_exc, 0);
+    } else if (hc_is(0, "fromit")) {
+      /* fromit <o> assign|concat tree|table|slice|filter <tok>... : the operand is another kind of iterable over the same
+         element type; what it yields (its own forward iteration, logged as vals) is what must arrive, in that order */
+      int isassign = hc_is(2, "assign"); const char* sk = hc_w[3]; int nv = hc_nw - 4;
+      var et = vt_type(etk); var src = NULL; var base = NULL;
+      if (!strcmp(sk, "tree") || !strcmp(sk, "table")) {
+        src = !strcmp(sk, "tree") ? (var)new_raw(Tree, et, Int) : (var)new_raw(Table, et, Int);
+        for (int i = 0; i < nv; i++) { var k = vt_make(vt_k, (int)hc_int(4 + i)); set(src, k, $I(0)); vt_free(k); }
+      } else {
+        base = new_raw(Array, et);
+        for (int i = 0; i < nv; i++) { var k = vt_make(vt_k, (int)hc_int(4 + i)); push(base, k); vt_free(k); }
+      }
+      var fn_all = $(Function, accept_all);
+      var view = base ? (!strcmp(sk, "slice") ? (var)slice(base) : (var)filter(base, fn_all)) : src;
+      n_init = 0; { size_t lim = (size_t)nv + 2; foreach (x in view) { if (n_init >= lim) break; init_vals[n_init++] = vt_token(vt_k, vt_nk, x); } }
+      if (isassign) HC_TRY(assign(c, view)); else HC_TRY(concat(c, view));
+      /* a Tuple keeps pointers into the operand: it stays alive until the next reset */
+      if (n_keep + 2 < MAXKEEP) { if (src) keep_tmp[n_keep++] = src; if (base) keep_tmp[n_keep++] = base; }
+      emit(objs, isassign ? "assignit" : "concatit", o, 0, 0, 0, 0, sk, hc_exc, 0);
     } else if (hc_is(0, "resize")) {
       long long n = hc_int(2);
       HC_TRY(resize(c, (size_t)n));
